@@ -347,11 +347,19 @@ ProtoCommand(e) ==
 (* Connection task (connection.rs): one per opened stream                     *)
 CtClosable(x, e, c) == c.sig \/ ~OtherAlive(x, e, c.i) \/ ~OtherAlive(x, e, c.o)
 \* poll_next returns CloseConnection; close_connection() closes both substreams
+\* Three ways to get there, in the order poll_next looks: the shutdown signal of the protocol (notify No); a failed
+\* write / flush of the outbound substream when the user has something queued and the remote end is gone; the end of
+\* the inbound substream.  Both errors notify the protocol (seeded defect: the flush error does not).
 CtDetect(e) ==
   \E c \in w.ct[e] :
     /\ c.st = "run" /\ CtClosable(w, e, c)
-    /\ Step([DropEnd(DropEnd(w, e, c.i), e, c.o) EXCEPT
-               !.ct[e] = (@ \ {c}) \cup {[c EXCEPT !.st = IF c.sig THEN "report" ELSE "notify"]}])
+    /\ \E how \in {"signal", "flush", "inbound"} :
+         /\ how = "signal" => c.sig
+         /\ how = "flush" => ~c.sig /\ ~OtherAlive(w, e, c.o)
+         /\ how = "inbound" => ~c.sig /\ ~OtherAlive(w, e, c.i)
+         /\ Step([DropEnd(DropEnd(w, e, c.i), e, c.o) EXCEPT
+                    !.ct[e] = (@ \ {c}) \cup {[c EXCEPT !.st = IF how = "signal" \/ (how = "flush" /\ Mut = "flush_error_no_notify")
+                                                                THEN "report" ELSE "notify"]}])
 \* conn_closed_tx.send(peer).await -- only if the protocol did not ask for the shutdown
 \* (every .await may yield: tokio's cooperative budget makes channel operations return Pending
 \*  after a burst of work in the same poll, so the task can be descheduled between the two sends)
